@@ -383,8 +383,167 @@ fn src_grammar(src: &str) -> (String, String, Option<String>) {
             let mut rng = Rng::new(seed ^ 0x61A5 ^ (k as u64).wrapping_mul(0x9E37));
             ("glr".into(), serde_json::to_string(&lalr_glr_grammar(&mut rng, &format!("c15lglr{k}"))).unwrap(), None)
         }
+        "kwnest" => {
+            let seed: u64 = f[1].parse().unwrap();
+            let k: usize = f[2].parse().unwrap();
+            let mut rng = Rng::new(seed ^ 0x4B37 ^ (k as u64).wrapping_mul(0x9E37));
+            ("kwnest".into(), serde_json::to_string(&kw_nest_grammar(&mut rng, &format!("c15kwn{k}")).0).unwrap(), None)
+        }
         "json" => ("cfg".into(), String::from_utf8(unhex(f[1])).unwrap(), None),
         _ => panic!("bad src {src}"),
+    }
+}
+
+
+/// Round 11 family `kwnest`: NO `word` token; an identifier-like PATTERN token `word`; 1–3 keyword-like string
+/// tokens that the pattern matches too, each valid only in SOME contexts; 2–4 contexts (distinct header tokens)
+/// that all reach the SAME item-set core (`x: 'x' 'y' .`, optionally through a unit wrapper) with follow sets
+/// that are nested ({word} ⊂ {word, kw}, or {kw} ⊂ {word, kw}) or overlapping (random subsets); with and without
+/// token precedence on the keywords / on the pattern.  The token-conflict relation between `word` and a keyword
+/// is ASYMMETRIC (only the preferred token shadows the other), so a merge test that looks at one direction
+/// only merges two of these states and changes what the lexer returns in the smaller context.
+/// Returns the grammar, its own terminal texts, and per context the token prefix that reaches the core's end.
+fn kw_nest_grammar(rng: &mut Rng, name: &str) -> (serde_json::Value, Vec<String>, Vec<Vec<String>>) {
+    use serde_json::json;
+    let pat_kind = rng.below(3);
+    let pat = ["[c-w][a-z0-9]*", "[a-z][a-z0-9]*", "[c-w][a-z0-9]*"][pat_kind];
+    let nctx = rng.range(2, 4);
+    let headers = ["a", "b", "A", "B"];
+    let pool = ["end1", "end2", "do", "of", "end", "fi"];
+    let nk = rng.range(1, 3);
+    let mut kws: Vec<&str> = Vec::new();
+    while kws.len() < nk {
+        let k = *rng.pick(&pool);
+        if !kws.contains(&k) {
+            kws.push(k);
+        }
+    }
+    // precedence mode: 0 none, 1 keywords +1, 2 keywords -1, 3 word -1, 4 word +1
+    let pmode = if rng.chance(1, 2) { 0 } else { rng.range(1, 4) };
+    let kw_named = pmode == 1 || pmode == 2 || rng.chance(1, 4);
+    let tok_prec = |v: serde_json::Value, p: i64| json!({"type":"TOKEN","content":{"type":"PREC","value":p,"content":v}});
+    let kw_use = |i: usize| -> serde_json::Value { if kw_named { sym(&format!("kw{i}")) } else { s(kws[i]) } };
+    // follow sets over U = {word} ∪ keywords (index 0 = word, i+1 = keyword i)
+    let nu = nk + 1;
+    let mut sets: Vec<Vec<usize>> = Vec::new();
+    match rng.below(3) {
+        0 => {
+            sets.push(vec![0]);
+            sets.push(vec![0, 1]);
+        }
+        1 => {
+            sets.push(vec![1]);
+            sets.push(vec![0, 1]);
+        }
+        _ => {
+            // a chain word ⊂ word+kw0 ⊂ … as far as the contexts go
+            sets.push(vec![0]);
+            sets.push((0..nu.min(3)).collect());
+        }
+    }
+    while sets.len() < nctx {
+        let mut v: Vec<usize> = (0..nu).filter(|_| rng.chance(1, 2)).collect();
+        if v.is_empty() {
+            v.push(rng.below(nu));
+        }
+        sets.push(v);
+    }
+    if rng.chance(1, 2) {
+        sets.swap(0, 1);
+    }
+    let core_kind = rng.below(4); // 0,1: 'x' 'y'   2: 'x'   3: 'x' word
+    let core_toks: Vec<String> = match core_kind {
+        2 => vec!["x".into()],
+        3 => vec!["x".into(), "foo".into()],
+        _ => vec!["x".into(), "y".into()],
+    };
+    let core_body = match core_kind {
+        2 => s("x"),
+        3 => seq(vec![s("x"), sym("word")]),
+        _ => seq(vec![s("x"), s("y")]),
+    };
+    let with_wrap = rng.chance(1, 3);
+    let term = rng.chance(2, 3);
+    let mut alts = Vec::new();
+    let mut prefixes = Vec::new();
+    for (i, set) in sets.iter().enumerate() {
+        let fol: Vec<serde_json::Value> = set.iter().map(|u| if *u == 0 { sym("word") } else { kw_use(*u - 1) }).collect();
+        let core = if with_wrap && rng.chance(1, 2) { sym("wrap") } else { sym("x") };
+        let mut ms = vec![s(headers[i]), core, choice(fol)];
+        if term {
+            ms.push(s(";"));
+        }
+        alts.push(seq(ms));
+        let mut pre = vec![headers[i].to_string()];
+        pre.extend(core_toks.iter().cloned());
+        prefixes.push(pre);
+    }
+    let mut rules: Vec<(String, serde_json::Value)> = Vec::new();
+    rules.push(("source".into(), if rng.chance(2, 3) { rep(sym("statement")) } else { sym("statement") }));
+    rules.push(("statement".into(), choice(alts)));
+    rules.push(("x".into(), core_body));
+    if with_wrap {
+        rules.push(("wrap".into(), sym("x")));
+    }
+    if kw_named {
+        for (i, k) in kws.iter().enumerate() {
+            let body = match pmode {
+                1 => tok_prec(s(k), 1),
+                2 => tok_prec(s(k), -1),
+                _ => s(k),
+            };
+            rules.push((format!("kw{i}"), body));
+        }
+    }
+    rules.push(("word".into(), match pmode {
+        3 => tok_prec(pattern(pat), -1),
+        4 => tok_prec(pattern(pat), 1),
+        _ => pattern(pat),
+    }));
+    let mut toks: Vec<String> = headers[..nctx].iter().map(|h| h.to_string()).collect();
+    toks.push("x".into());
+    if core_kind < 2 {
+        toks.push("y".into());
+    }
+    toks.extend(kws.iter().map(|k| k.to_string()));
+    toks.push("foo".into());
+    if term {
+        toks.push(";".into());
+    }
+    if toks.len() <= 7 {
+        toks.push(format!("{}x", kws[0])); // an identifier that only BEGINS with a keyword
+    }
+    (grammar(name, rules, vec![pattern("\\s")], vec![], vec![]), toks, prefixes)
+}
+
+/// All strings over the grammar's own terminal texts up to the exhaustive bound, then — for every context —
+/// the prefix that reaches the end of the shared core followed by ALL continuations up to a bound.
+fn explore_kw_nest(em: &mut Em, p: &Pair, gid: &str, toks: &[String], prefixes: &[Vec<String>], budget: usize) {
+    let (mut pa, mut pb) = (Parser::new(), Parser::new());
+    pa.set_language(&p.lang_a).unwrap();
+    pb.set_language(&p.lang_b).unwrap();
+    let mut seen: std::collections::HashSet<Vec<u8>> = std::collections::HashSet::new();
+    let mut texts: Vec<Vec<u8>> = Vec::new();
+    let l = exh_len(toks.len(), budget);
+    all_strings(toks.len(), l, &mut |ix| {
+        let t = ix.iter().map(|i| toks[*i].as_str()).collect::<Vec<_>>().join(" ").into_bytes();
+        if seen.insert(t.clone()) {
+            texts.push(t);
+        }
+    });
+    let cl = exh_len(toks.len(), budget / 3).min(3);
+    for pre in prefixes {
+        all_strings(toks.len(), cl, &mut |ix| {
+            let mut parts: Vec<&str> = pre.iter().map(|x| x.as_str()).collect();
+            parts.extend(ix.iter().map(|i| toks[*i].as_str()));
+            let t = parts.join(" ").into_bytes();
+            if seen.insert(t.clone()) {
+                texts.push(t);
+            }
+        });
+    }
+    for (n, t) in texts.iter().enumerate() {
+        em.case(&format!("{gid}-k{n}"), &mut pa, &mut pb, t, None);
     }
 }
 
@@ -680,6 +839,29 @@ fn main() {
                 npairs += 1;
             }
             Err(_) => rejected += 1,
+        }
+    }
+    // Round 11: keyword-like string tokens vs an identifier pattern WITHOUT a word token, same-core states with
+    // nested / overlapping look-ahead sets (asymmetric token conflicts).  Last, with its own generators: the
+    // families above see the same random stream as before.
+    for k in 0..(if thorough { 80 } else { 12 }) {
+        let mut grng = Rng::new(seed ^ 0x4B37 ^ (k as u64).wrapping_mul(0x9E37));
+        let name = format!("c15kwn{k}");
+        let (g, toks, prefixes) = kw_nest_grammar(&mut grng, &name);
+        let json = serde_json::to_string(&g).unwrap();
+        match build_pair(&mut cu, &work, &name, &json, None, 2) {
+            Ok(p) => {
+                if !p.det_ok {
+                    nondet += 1;
+                }
+                em.header(&name, "kwnest", &format!("kwnest:{seed}:{k}"), &p);
+                explore_kw_nest(&mut em, &p, &name, &toks, &prefixes, if thorough { 12000 } else { 1500 });
+                npairs += 1;
+            }
+            Err(e) => {
+                rejected += 1;
+                eprintln!("{name}: {}", e.lines().next().unwrap_or(""));
+            }
         }
     }
     let (cases, both_ok, differ) = (em.cases, em.both_ok, em.differ);
